@@ -721,6 +721,11 @@ func (e *Engine) blocked(fr *frame, g *Term, what string, pos token.Pos) {
 	if g.IsFalse() {
 		return
 	}
+	if e.spec.IgnoreBlocked {
+		e.note("paths that block forever (" + what + ") are not examined in this harness")
+		e.assume(Not(g))
+		return
+	}
 	e.oblige("blocked", what, g, pos, fr.fn.String())
 	e.assumeFact(Not(g))
 }
